@@ -120,6 +120,7 @@ def generate(seed, tier, batch):
     if script["reset_opts"] and r.random() < 0.5:
         script["reset_opts"] = r.choice([{"pure": not opts["pure"]}, {"cutoff_dim": opts["cutoff_dim"] + 1, "pure": not opts["pure"]}])
     script["double_reset"] = r.random() < 0.3
+    script["copts"] = {"optimize": False} if random.Random("c09c:%d" % seed).random() < 0.4 else None
     # compile / optimize calls on user programs between runs
     for _ in range(r.randint(0, 3)):
         i = r.randrange(nseg)
@@ -180,6 +181,8 @@ class Runner:
         self.env = SimEnv(w, self.outcomes, self.plan)
         # one options dictionary the user keeps and hands to every engine of the session (an input like the programs: never to be altered)
         self.user_opts = copy.deepcopy(script["opts"])
+        # ... and one compile-options dictionary handed to every run call (None: the argument is not given)
+        self.user_copts = copy.deepcopy(script.get("copts"))
 
     def engine(self, opts=None):
         if opts is None:
@@ -190,14 +193,15 @@ class Runner:
         """returns (state_obs, samples_obs of the last call, n_results)"""
         self.outcomes.rewind()
         bind = self.s["bind"] or None
+        kw = {"compile_options": self.user_copts} if self.user_copts is not None else {}
         if pattern == "list":
             self.w.step("run_list", n=len(progs))
-            res = eng.run(list(progs), args=bind)
+            res = eng.run(list(progs), args=bind, **kw)
         else:
             res = None
             for p in progs:
                 self.w.step("run", prog=p.name)
-                res = eng.run(p, args=bind)
+                res = eng.run(p, args=bind, **kw)
         return state_obs(res.state), samples_obs(res), res
 
 
@@ -219,6 +223,9 @@ def execute(script, w):
     try:
         _execute(script, w, R)
     finally:
+        if R.user_copts != script.get("copts") and not w.violations:
+            w.violation("inputs-untouched", "compile_options-dictionary-handed-to-run", {"before": script.get("copts"), "after": {k_: str(R.user_copts[k_]) for k_ in sorted(R.user_copts)}},
+                        ["backend=" + script["backend"]])
         if R.user_opts != script["opts"] and not w.violations:
             w.violation("inputs-untouched", "backend_options-dictionary-handed-to-the-engines", {"before": script["opts"], "after": {k_: R.user_opts[k_] for k_ in sorted(R.user_opts)}},
                         ["backend=" + script["backend"]])
@@ -589,6 +596,8 @@ def shrink(script):
         yield dict(script, reset_opts=None)
     if script.get("double_reset"):
         yield dict(script, double_reset=False)
+    if script.get("copts") is not None:
+        yield dict(script, copts=None)
     # simplify ops: drop dagger, replace symbolic parameter by a number
     for i, sp in enumerate(pool):
         for j, o in enumerate(sp["ops"]):
